@@ -24,6 +24,7 @@ module c20f_m
   character(len=64) :: op
   integer :: fn = -1, fn_open = 0, cgio_n = -1, backend = 0, nids = 0
   integer :: fn2 = -1, fn2_open = 0
+  integer :: fillb = 126           ! what an output variable holds before the call ('~'; `fill 32`: blanks, the usual case)
   real(c_double) :: ids(0:63)
   character(len=4096) :: path1, path2
   real(c_double), target :: dbuf(4100)
@@ -124,7 +125,7 @@ contains
     m = max(n, 0)
     allocate(character(len=m + 2 * GUARD) :: o%a)
     o%a = repeat(achar(165), m + 2 * GUARD)
-    if (m > 0) o%a(GUARD + 1:GUARD + m) = repeat(achar(126), m)
+    if (m > 0) o%a(GUARD + 1:GUARD + m) = repeat(achar(fillb), m)
     o%n = m
   end subroutine
 
